@@ -3,6 +3,7 @@ package webrtc
 import (
 	"errors"
 	"fmt"
+	"os"
 	"sort"
 	"strings"
 	"sync"
@@ -43,6 +44,7 @@ type c18Chan struct {
 	detachBeg  atomic.Int64 // stamped BEFORE Detach() was called
 	raw        datachannel.ReadWriteCloser
 	detachedAt string // onopen | later
+	rawUsed    bool
 }
 
 func (c *c18Chan) sample(where string) int {
@@ -349,6 +351,14 @@ func (ck *c18Checker) check(where string, quiescent bool) { //nolint:gocognit,cy
 }
 
 var c18Debug = false //nolint:gochecknoglobals
+
+func c18DebugF(f string, a ...any) {
+	fh, err := os.OpenFile("/tmp/c18dbg.txt", os.O_APPEND|os.O_CREATE|os.O_WRONLY, 0o644)
+	if err == nil {
+		fmt.Fprintf(fh, f, a...)
+		_ = fh.Close()
+	}
+}
 
 func c18Seq(seq []int) string {
 	var parts []string
@@ -721,6 +731,14 @@ func TestVerifC18(t *testing.T) { //nolint:gocognit,cyclop,maintidx
 			if !kit.Eventually(15*time.Second, p.settled) {
 				ck.check(where+"(unsettled)", false)
 				run.Inconclusive("settle-watchdog:" + where)
+				run.Seen("settle_watchdog_detach_plan", p.plan.String())
+				if c18Debug {
+					for side := 0; side < 2; side++ {
+						for _, c := range p.list(side) {
+							c18DebugF("C18DEBUG unsettled case %d plan %s side %d %s %q id %d state %s det %d closed %v\n", i, p.plan, side, c.kind, c.label, c.sample("poll"), c.dc.ReadyState(), c.detachOrd.Load(), p.isClosedID(c.sample("poll")))
+						}
+					}
+				}
 
 				return false
 			}
@@ -791,6 +809,9 @@ func TestVerifC18(t *testing.T) { //nolint:gocognit,cyclop,maintidx
 			ck.check(tag+"-settled", true)
 			if p.plan.any() { // more channels handed to the application, from its own goroutine this time
 				op("%s-detach=%v", tag, p.detachLater(rd))
+				wrote, failed := p.useDetached()
+				run.Count("writes_on_detached_raw_handles", wrote)
+				run.Count("writes_on_detached_raw_handles_failed", failed)
 				ck.check(tag+"-detached", true)
 			}
 
